@@ -54,6 +54,8 @@ def actions(sysm):
     acts.append(('CompleteTrial', 's', i, 'final'))
     acts.append(('DeleteTrial', 's', i))
     acts.append(('StopTrial', 's', i))
+  if cfg.get('switch'):
+    acts.append(('Switch',))     # the next calls are served by the other of two live server objects on the same stored data
   return acts
 
 
@@ -106,14 +108,21 @@ def run(ctx):
   if ctx.quick:
     plans = [({'backends': ['ram'], 'max_trials': 4, 'max_ops': 3, 'counts': (1, 2, 3), 'max_id': 7}, 4),
              ({'backends': ['ram', 'sqlmem'], 'max_trials': 3, 'max_ops': 2, 'counts': (1, 2), 'max_id': 6}, 4),
-             ({'backends': ['ram', 'sqlmem'], 'multi': True, 'studies': ('s_1', 'sx1'), 'clients': ('a',), 'max_trials': 2, 'max_ops': 2, 'counts': (1, 2), 'max_id': 3}, 6)]
+             ({'backends': ['ram', 'sqlmem'], 'multi': True, 'studies': ('s_1', 'sx1'), 'clients': ('a',), 'max_trials': 2, 'max_ops': 2, 'counts': (1, 2), 'max_id': 3}, 6),
+             # two live servers on one SQLite file (what two worker processes with the default local client are), replay-only
+             ({'backends': ['sqlfile'], 'switch': True, 'fresh_backends': True, 'max_trials': 2, 'max_ops': 3, 'counts': (1,), 'max_id': 3,
+               'starts': [[('CreateStudy', 's'), ('SuggestTrials', 's', 'a', 1), ('Switch',), ('SuggestTrials', 's', 'a', 1), ('Switch',)]]}, 3)]
   else:
     plans = [({'backends': ['ram'], 'max_trials': 5, 'max_ops': 4, 'counts': (1, 2, 3), 'max_id': 9}, 7),
              ({'backends': ['ram', 'sqlmem', 'sqlfile'], 'max_trials': 4, 'max_ops': 3, 'counts': (1, 2, 3), 'max_id': 7}, 5),
-             ({'backends': ['ram', 'sqlmem', 'sqlfile'], 'multi': True, 'studies': ('s_1', 'sx1', 'S%', 's1'), 'clients': ('a',), 'max_trials': 2, 'max_ops': 2, 'counts': (1, 2), 'max_id': 3}, 7)]
+             ({'backends': ['ram', 'sqlmem', 'sqlfile'], 'multi': True, 'studies': ('s_1', 'sx1', 'S%', 's1'), 'clients': ('a',), 'max_trials': 2, 'max_ops': 2, 'counts': (1, 2), 'max_id': 3}, 7),
+             ({'backends': ['sqlfile'], 'switch': True, 'fresh_backends': True, 'max_trials': 3, 'max_ops': 4, 'counts': (1, 2), 'max_id': 4,
+               'starts': [[('CreateStudy', 's'), ('SuggestTrials', 's', 'a', 1), ('Switch',), ('SuggestTrials', 's', 'a', 1), ('Switch',)]]}, 4)]
   cov = {'states': 0, 'transitions': 0, 'traces_validated_against_impl': 0, 'samples': [], 'runs': [], 'exhaustive': True}
   for cfg, depth in plans:
-    s = statespace.Search(ctx, 'expand', depth, cfg, chunk=16)
+    cfg = dict(cfg)
+    starts = cfg.pop('starts', None)
+    s = statespace.Search(ctx, 'expand', depth, cfg, chunk=16, starts=starts)
     fp = s.run()
     c = s.coverage(fp)
     if c['snapshot_vs_replay_mismatches']:
